@@ -59,7 +59,7 @@ pub fn oracle(case: &Case) -> Outcome {
     }
     // twin: prefix only
     let mut twin = replayed();
-    let want: Vec<String> = twin.parse_bytes(&prefix).iter().map(|e| format!("{:?}", e)).collect();
+    let want: Vec<String> = twin.parse_bytes(&prefix).iter().map(obs::render).collect();
     let twin_model = model_from_lib(&twin);
     let version = be16(target, 0);
     // V9 flowset boundaries
@@ -94,7 +94,7 @@ pub fn oracle(case: &Case) -> Outcome {
             ));
         }
         for (k, w) in want.iter().enumerate() {
-            if &format!("{:?}", res[k]) != w {
+            if &obs::render(&res[k]) != w {
                 return Outcome::violation(format!("{}: preceding packet {} is reported differently than without the truncated tail", at, k));
             }
         }
